@@ -1,6 +1,7 @@
 """C20 - Operands and targets are evaluated left-to-right exactly once (DESIGN 7/C20)."""
 import json, os, sys, itertools
 import cybuild
+import C20_ccall as CC
 
 TITLE = "Operands and targets are evaluated left-to-right exactly once"
 EXTRACTS = ["EvalOrder"]
@@ -62,6 +63,7 @@ def nm(v):
     if isinstance(v, dict): return 'dict(' + ','.join(nm(k) + ':' + nm(x) for k, x in v.items()) + ')'
     if isinstance(v, slice): return 'slice(' + nm(v.start) + ',' + nm(v.stop) + ',' + nm(v.step) + ')'
     if isinstance(v, str): return 'str<' + v + '>'
+    if type(v).__name__ == 'K': return 'K%d' % v.kid
     return '?' + repr(v)
 
 def mk(op, args):
@@ -133,6 +135,8 @@ def U(k):
     LOG.append('L%d' % k); return (O('U%da' % k, True), O('U%db' % k, False))
 def D(k):
     LOG.append('L%d' % k); return {'d%d' % k: O('D%d' % k, True)}
+def I(k):
+    LOG.append('L%d' % k); return k
 
 def run_case(fn):
     del LOG[:]
@@ -162,9 +166,15 @@ VARS = ["x", "y", "z"]          # plus "r" (result of expression statements)
 def r_expr(e):
     t = e[0]
     if t == "leaf":
+        if e[1] == "K":
+            return "kk(KO(%d))" % e[2]
         return "%s(%d)" % (e[1], e[2])
     if t == "name":
         return e[1]
+    if t == "none":
+        return "None"
+    if t == "ccall":
+        return CC.r_ccall(e, r_expr)
     if t == "bin":
         return "(%s %s %s)" % (r_expr(e[2]), BINOPS[e[1]], r_expr(e[3]))
     if t == "un":
@@ -277,6 +287,10 @@ def _t_expr1(e, infs):
         return ["L", e[1], str(e[2])]
     if t == "name":
         return ["N", e[1]]
+    if t == "none":
+        return ["NONE"]
+    if t == "ccall":
+        return CC.t_ccall(e, t_expr)
     if t == "bin":
         return ["B", e[1]] + t_expr(e[2]) + t_expr(e[3])
     if t == "un":
@@ -428,7 +442,25 @@ class Gen(object):
                     [sub(True) for _ in range(r.randint(2, 4))])
         if kind == "fstr":
             return ("fstr", [sub(True) for _ in range(r.randint(1, 3))])
+        if kind == "ccall":
+            # a call of a C function / C method: random shape (no gap), arguments = arbitrary sub-expressions
+            fname = r.choice(["cf", "cf", "co", "pf", "K.m", "K.p"])
+            shapes = list(CC.call_shapes(fname))
+            npos, perm = r.choice(shapes)
+            recv = None
+            if CC.CALLEES[fname].get("method"):
+                recv = ("name", "kobj") if r.random() < 0.5 else self.leaf("K")
+            args = [("pos", self.carg(sub)) for _ in range(npos)] + [("kw", pn, self.carg(sub)) for pn in perm]
+            return ("ccall", fname, recv, args)
         raise ValueError(kind)
+
+    def carg(self, sub):
+        c = self.rng.random()
+        if c < 0.15:
+            return ("name", self.rng.choice(VARS))
+        if c < 0.25:
+            return CC.mk_arg(self, self.rng.choice(CC.FALSE_SIMPLE))
+        return sub(False)
 
     def args(self, sub, n):
         """argument list in a syntactically valid order (positional before keywords; * anywhere before **)"""
@@ -493,7 +525,7 @@ class Gen(object):
 OBJ_CMPOPS = ["lt", "gt", "le", "ge", "eq", "ne"]
 OBJ_KINDS = ["bin", "bin", "un", "cmp1", "cmp2", "cmp3", "and", "or", "and", "or", "cond", "call", "call", "mcall",
              "sub", "slice", "attr", "minmax", "fstr_no"]
-OBJ_KINDS = [k for k in OBJ_KINDS if k != "fstr_no"]
+OBJ_KINDS = [k for k in OBJ_KINDS if k != "fstr_no"] + ["ccall", "ccall"]
 EXPR_KINDS = OBJ_KINDS + ["not", "tuple", "list", "set", "dict", "fstr", "cmp2"]
 
 
@@ -675,25 +707,32 @@ def run_all(workdir, todo):
     return results
 
 
-def module_source(stmts, first=0):
-    L = ["# cython: language_level=3", "from c20rt import O, T, F, U, D", ""]
+def module_source(stmts, first=0, py=False, skip=()):
+    """py: the CPython twin (plain def callees); skip: indices (absolute) left out of the compiled module"""
+    L = ["# cython: language_level=3", "from c20rt import O, T, F, U, D, I, ev, LOG", ""]
+    if any(CC.needs_prelude(s) for s in stmts):
+        L.append(CC.PRELUDE_PY if py else CC.PRELUDE_CY)
     for i, s in enumerate(stmts):
+        if (first + i) in skip and not py:
+            continue
         L.append(r_func("c%d" % (first + i), s))
     return "\n".join(L)
 
 
-def build_and_run(workdir, stmts, chunk=150, jobs=6, tag="c20m"):
+def build_and_run(workdir, stmts, chunk=150, jobs=6, tag="c20m", skip=()):
     """returns (impl, oracle): lists of [log, result] per statement; impl entries are None when the
-    chunk failed to build (with the error in the third slot)"""
+    chunk failed to build (with the error in the third slot); the statements whose index is in skip are
+    left out of the compiled modules (impl entry [None, "SKIPPED"])"""
+    skip = set(skip)
     os.makedirs(workdir, exist_ok=True)
     with open(os.path.join(workdir, "c20rt.py"), "w") as f:
         f.write(RUNTIME)
     specs, names = [], []
     for ci in range(0, len(stmts), chunk):
         name = "%s_%d" % (tag, ci // chunk)
-        src = module_source(stmts[ci:ci + chunk], ci)
+        src = module_source(stmts[ci:ci + chunk], ci, skip=skip)
         with open(os.path.join(workdir, name + "_py.py"), "w") as f:
-            f.write(src)
+            f.write(module_source(stmts[ci:ci + chunk], ci, py=True))
         specs.append(dict(name=name, source=src, workdir=workdir, cflags=["-O0"]))
         names.append((name, ci, min(len(stmts), ci + chunk)))
     built = cybuild.build_many(specs, jobs=jobs)
@@ -710,9 +749,9 @@ def build_and_run(workdir, stmts, chunk=150, jobs=6, tag="c20m"):
             mid = (lo + hi) // 2
             for j, (l2, h2) in enumerate(((lo, mid), (mid, hi))):
                 nm2 = "%s_%d%s" % (name, round_no, "ab"[j])
-                src = module_source(stmts[l2:h2], l2)
+                src = module_source(stmts[l2:h2], l2, skip=skip)
                 with open(os.path.join(workdir, nm2 + "_py.py"), "w") as f:
-                    f.write(src)
+                    f.write(module_source(stmts[l2:h2], l2, py=True))
                 nspecs.append(dict(name=nm2, source=src, workdir=workdir, cflags=["-O0"]))
                 nnames.append((nm2, l2, h2))
         nbuilt = cybuild.build_many(nspecs, jobs=jobs)
@@ -725,7 +764,10 @@ def build_and_run(workdir, stmts, chunk=150, jobs=6, tag="c20m"):
         fl = ["c%d" % i for i in range(lo, hi)]
         todo += [[name + "_py", f] for f in fl]
         if err is None:
-            todo += [[name, f] for f in fl]
+            todo += [[name, "c%d" % i] for i in range(lo, hi) if i not in skip]
+            for i in range(lo, hi):
+                if i in skip:
+                    impl[i] = [None, "SKIPPED"]
         else:
             for i in range(lo, hi):
                 impl[i] = [None, "BUILD " + str(err)[:1500]]
@@ -744,17 +786,27 @@ def build_and_run(workdir, stmts, chunk=150, jobs=6, tag="c20m"):
 INPLACE_FIXED = os.environ.get("C20_INPLACE_FIXED", "1") == "1"
 NOTFLIP_FIXED = os.environ.get("C20_NOTFLIP_FIXED", "1") == "1"
 BOOLOPDUP_FIXED = os.environ.get("C20_BOOLOPDUP_FIXED", "1") == "1"
+# GeneralCallNode.map_to_simple_call_node (proposed_fixes/C20-ccall_*.diff)
+CCSIMPLE_FIXED = os.environ.get("C20_CCSIMPLE_FIXED", "0") == "1"
+CCKEEP_FIXED = os.environ.get("C20_CCKEEP_FIXED", "0") == "1"
+CCRECV_FIXED = os.environ.get("C20_CCRECV_FIXED", "0") == "1"
 FLAG_CLASSES = [  # (index in the model's flag vector, finding class)
     (0, "minmax_first_argument_evaluated_last"),
     (1, "method_lookup_after_arguments"),
     (2, "inplace_attribute_base_evaluated_twice"),
     (3, "cascaded_unpacking_assigns_columnwise"),
+    (5, "ccall_arguments_cut_after_leading_temp"),
+    (4, "ccall_argument_taken_for_simple_before_analysis"),
+    (6, "cmethod_receiver_evaluated_after_keyword_temps"),
 ]
 REWRITE_CLASSES = ["not_of_cascaded_in_flips_operator", "cascaded_in_boolop_operand_evaluated_twice"]
 
 
 def asis_flags():
-    return [1 if MINMAX_FIXED else 0, 0, 1 if INPLACE_FIXED else 0, 0]
+    """fx_minmax fx_mcall fx_inplace fx_cascade fx_ccsimple fx_cckeep fx_ccrecv cc_sorted (the last one is not a
+    repair: the temps of out-of-order keyword arguments ARE sorted by call position in the tree as it is)"""
+    return [1 if MINMAX_FIXED else 0, 0, 1 if INPLACE_FIXED else 0, 0,
+            1 if CCSIMPLE_FIXED else 0, 1 if CCKEEP_FIXED else 0, 1 if CCRECV_FIXED else 0, 1]
 
 
 def asis_rewrites():
@@ -810,6 +862,9 @@ def stratum_of(s):
     if s[0] == "assign":
         if len(s[1]) == 1 and s[1][0] == ("name", "r"):
             e = s[2]
+            if e[0] == "ccall":
+                nkw = sum(1 for a in e[3] if a[0] == "kw")
+                return "ccall/%s/pos%d+kw%d" % (e[1], len(e[3]) - nkw, nkw)
             return "expr/" + (e[1] if e[0] in ("disp",) else e[0])
         kinds = "+".join(sorted(set(t[0] for t in s[1])))
         return "assign%d/%s" % (min(len(s[1]), 3), kinds)
@@ -820,7 +875,7 @@ def stratum_of(s):
 
 def model_lines(stmts, flags, rw=None):
     rw = asis_rewrites() if rw is None else rw
-    return ["run %d %d %d %d %s" % (flags[0], flags[1], flags[2], flags[3], " ".join(t_stmt(front_end(s, rw))))
+    return ["run %s %s" % (" ".join(str(f) for f in flags), " ".join(t_stmt(front_end(s, rw))))
             for s in stmts]
 
 
@@ -843,23 +898,81 @@ def classify(model, s, base_out):
     return "order_differs_from_cpython"
 
 
+CYONLY = r"""
+import sys, json, os, io
+import pyload; pyload.install()
+spec = json.load(sys.stdin)
+from Cython.Compiler import Main, Options
+pyload.assert_sources()
+directives = dict(Options.get_directive_defaults()); directives["language_level"] = 3
+res = []
+for i, src in enumerate(spec["sources"]):
+    path = os.path.join(spec["dir"], "c20rej_%d.pyx" % i)
+    with open(path, "w") as f:
+        f.write(src)
+    opts = Main.CompilationOptions(Main.default_options, compiler_directives=directives, output_file=path[:-4] + ".c")
+    err = io.StringIO(); old = sys.stderr; sys.stderr = err
+    ok = False; crash = None
+    try:
+        try:
+            r = Main.compile(path, opts); ok = (r.num_errors == 0)
+        except BaseException as e:
+            crash = repr(e)[:300]
+    finally:
+        sys.stderr = old
+    res.append({"ok": ok, "err": err.getvalue()[-1500:], "crash": crash})
+print(json.dumps(res))
+"""
+
+
+def cy_only(workdir, sources):
+    """translate every source on its own with the compiler under test (no C compiler): [{ok, err, crash}]"""
+    if not sources:
+        return []
+    r = cybuild.run_script(CYONLY, workdir, {"sources": sources, "dir": workdir}, timeout=1500, name="c20_cyonly.py")
+    if not isinstance(r["json"], list):
+        raise RuntimeError("cy_only failed rc=%s %s" % (r["rc"], r["err"][-1500:]))
+    return r["json"]
+
+
 def check_stmts(ctx, stmts, tag):
     model = ctx.model("evalorder")
-    impl, orac = build_and_run(ctx.workdir, stmts, tag=tag, jobs=6, chunk=100)
     flags = asis_flags()
     m_asis = model.batch(model_lines(stmts, flags))
     m_ref = model.batch(["ref " + " ".join(t_stmt(s)) for s in stmts])
+    # C calls the model of the compiler rejects (compile error): left out of the compiled modules, the real
+    # compiler is asked about each of them separately
+    rej = [i for i, ma in enumerate(m_asis) if ma.startswith("REJECT")]
+    impl, orac = build_and_run(ctx.workdir, stmts, tag=tag, jobs=6, chunk=100, skip=rej)
+    rej_res = dict(zip(rej, cy_only(ctx.workdir, [module_source([stmts[i]], i) for i in rej])))
     nskip = 0
     ncrash = []
     nalt = []
-    for s, a, o, ma, mr in zip(stmts, impl, orac, m_asis, m_ref):
+    nrej = []
+    for i, (s, a, o, ma, mr) in enumerate(zip(stmts, impl, orac, m_asis, m_ref)):
         src = r_stmt(s)
         inp = {"stmt": src, "ast": s}
         if o[1].startswith("EXC"):
             nskip += 1          # CPython itself rejects the generated statement: not a case
             continue
+        has_cc = has_kind(s, ("ccall",))
+        if i in rej_res:
+            # valid for CPython, rejected by the model of the compiler: the compiler must reject it too, and
+            # the repaired model must accept it with the reference order (nothing is executed: no order to
+            # compare; reported as a note, see proposed_fixes/C20-ccall_arguments_cut_after_leading_temp)
+            ctx.case("ccall-rejected", inp, sig=src)
+            rr = rej_res[i]
+            if rr["ok"] or rr["crash"] or not ("wrong number of arguments" in rr["err"] or "missing argument" in rr["err"]):
+                ctx.corr_break("model-rejects-vs-compiler", inp, rr, ma)
+            f2 = list(flags); f2[5] = 1
+            alt = parse_model(model.batch(model_lines([s], f2))[0])
+            pr = parse_model(mr)
+            if alt is None or pr is None or alt[1] == "REJECT" or alt[0] != pr[0]:
+                ctx.corr_break("rejected-call-repaired-model", inp, alt, pr)
+            nrej.append(src)
+            continue
         ctx.case(stratum_of(s), inp, sig=src)
-        if a[0] is None and ("Compiler crash" in a[1] or "cython-error" in a[1]):
+        if a[0] is None and ("Compiler crash" in a[1] or "cython-error" in a[1]) and not has_cc:
             # the compiler rejects / crashes on this (valid) statement: nothing is executed, no order to compare
             ncrash.append(src)
             if os.environ.get("C20_DEBUG"):
@@ -907,8 +1020,285 @@ def check_stmts(ctx, stmts, tag):
     if ncrash:
         ctx.note("%s: the compiler fails on %d generated statements (not evaluation-order cases), e.g. %s"
                  % (tag, len(ncrash), ncrash[0][:200]))
+    if nrej:
+        ctx.note("%s: %d valid calls of C functions with out-of-order keyword arguments are rejected at compile time "
+                 "('Call with wrong number of arguments': map_to_simple_call_node cuts the argument list at the "
+                 "first temp when a non-simple argument precedes it; model and compiler agree), e.g. %s"
+                 % (tag, len(nrej), nrej[0][:200]))
     if nskip:
         ctx.note("%s: %d generated statements rejected by CPython itself (skipped)" % (tag, nskip))
+
+
+# --------------------------------------------------------------------------------------
+# front-end tie of GeneralCallNode.map_to_simple_call_node (no C compiler involved)
+def tie_class(fname, npos, perm, kinds):
+    """finding class of a call shape, from the input only"""
+    P = CC.CALLEES[fname]["params"]
+    m = npos + len(perm)
+    pre = 0
+    while pre < len(perm) and perm[pre] == P[npos + pre]:
+        pre += 1
+    k = npos + pre
+    believed = [kd in CC.SIMPLE or kd in CC.FALSE_SIMPLE for kd in kinds]
+    has_temp = any(not believed[p] for p in range(k, m))
+    if has_temp and any(not believed[p] for p in range(k)) and not CCKEEP_FIXED:
+        return "ccall_arguments_cut_after_leading_temp"
+    if pre < len(perm) and any(kd in CC.FALSE_SIMPLE for kd in kinds) and not CCSIMPLE_FIXED:
+        return "ccall_argument_taken_for_simple_before_analysis"
+    return "ccall_temps_not_in_call_order"
+
+
+def check_ccmap(ctx):
+    quick = ctx.tier == "quick"
+    model = ctx.model("evalorder")
+    g = Gen(ctx.rng)
+    cases = CC.tie_cases(g, quick)
+    # one call per source line; 40 calls per function, 400 per module
+    mods, where = [], []
+    per_mod = 400
+    for mi in range(0, len(cases), per_mod):
+        name = "c20tie_%d" % (mi // per_mod)
+        L = ["# cython: language_level=3", "from c20rt import O, T, F, U, D, I, ev, LOG", ""] + CC.PRELUDE_CY.split("\n")
+        asts = []
+        for j, (fname, npos, perm, kinds) in enumerate(cases[mi:mi + per_mod]):
+            if j % 40 == 0:
+                L.append("def t%d(x, y, z):" % (j // 40))
+            g.k = 0
+            call = CC.mk_call(g, fname, npos, perm, kinds, "name")
+            L.append("    r = " + r_expr(call))
+            where.append((name, len(L)))
+            asts.append(call)
+        mods.append((name, "\n".join(L) + "\n", asts))
+    os.makedirs(ctx.workdir, exist_ok=True)
+    for name, src, _ in mods:
+        with open(os.path.join(ctx.workdir, name + ".pyx"), "w") as f:
+            f.write(src)
+    r = cybuild.run_script(CC.FRONT, ctx.workdir, {"modules": [m[0] for m in mods], "dir": ctx.workdir},
+                           timeout=1500, name="c20_front.py")
+    real = r["json"]
+    if not isinstance(real, dict):
+        raise RuntimeError("front-end tie failed rc=%s %s" % (r["rc"], r["err"][-2000:]))
+    if real.get("crash"):
+        ctx.note("front-end tie: compiler crashed in %s" % real["crash"][:2])
+    all_asts = [a for m in mods for a in m[2]]
+    bs = model.batch(["bsimple " + " ".join(t_expr(a[1] if a[0] == "pos" else a[2])) for call in all_asts for a in call[3]])
+    pos = 0
+    lines = []
+    bits_of = []
+    for call in all_asts:
+        n = len(call[3])
+        bits = [b.split() for b in bs[pos:pos + n]]
+        pos += n
+        bits_of.append(bits)
+    keep = 1 if CCKEEP_FIXED else 0
+    for (fname, npos, perm, kinds), bits in zip(cases, bits_of):
+        P = CC.CALLEES[fname]["params"]
+        use = [(b[1] if CCSIMPLE_FIXED else b[0]) for b in bits]
+        lines.append("ccmap 1 %d %d %d %s %s" % (keep, npos, len(P), ",".join(str(P.index(x)) for x in perm) or "-",
+                                                  "".join(use) or "-"))
+    mres = model.batch(lines)
+    nrej = 0
+    for idx, ((fname, npos, perm, kinds), (mname, line), bits, mr) in enumerate(zip(cases, where, bits_of, mres)):
+        call = all_asts[idx]
+        src = r_expr(call)
+        inp = {"call": src, "callee": fname, "npos": npos, "keywords": perm, "kinds": kinds}
+        recs = real.get(mname, {}).get(str(line))
+        ctx.case("ccmap/%s/pos%d+kw%d" % (fname, npos, len(perm)), inp, sig=src)
+        if not recs or len(recs) != 1:
+            ctx.corr_break("ccmap-no-record", inp, recs, mr)
+            continue
+        rec = recs[0]
+        # (a) the is_simple() verdicts before type analysis = bsimple of the model
+        if [str(x) for x in rec["simple"]] != [b[0] for b in bits]:
+            ctx.corr_break("bsimple-model-vs-real", inp, rec["simple"], [b[0] for b in bits])
+        # (b) temps and argument list = ccmap of the model
+        if rec["res"] == "ok":
+            got = "OK %s | %s" % (",".join(map(str, rec["temps"])), ",".join(map(str, rec["args"])))
+        else:
+            got = {"none": "ERR/GAP", "self": "GAP"}[rec["res"]]
+        if not (got == mr or (got == "ERR/GAP" and mr in ("ERR", "GAP"))):
+            ctx.corr_break("ccmap-model-vs-real", inp, got, mr)
+        # (c) the property: the SimpleCallNode receives the binding the call denotes and the evaluation order
+        #     (temps, then the arguments left in place) visits the really non-simple arguments in call order,
+        #     every argument exactly once
+        if rec["res"] != "ok":
+            ctx.fail("ccall_valid_call_not_mapped", inp, rec, "mapped")
+            continue
+        want = CC.expected_binding(fname, npos, perm)
+        order = rec["temps"] + [p for p in rec["args"] if p not in rec["temps"]]
+        real_ns = [p for p in order if kinds[p] not in CC.SIMPLE] if all(0 <= p < len(kinds) for p in order) else None
+        ok = (rec["args"] == want and len(set(order)) == len(order) and
+              real_ns == [p for p in range(len(kinds)) if kinds[p] not in CC.SIMPLE])
+        if not ok:
+            ctx.fail(tie_class(fname, npos, perm, kinds), inp, {"temps": rec["temps"], "args": rec["args"]},
+                     {"args": want, "non-simple arguments evaluated in call order": True},
+                     note="model: %s" % mr)
+    # calls with a gap (a declared parameter before a given keyword is omitted): compile error for cdef
+    # functions ("C function call is missing argument"), Python call of the wrapper for cpdef functions
+    gaps = [("co", "co(T(1), c=T(2))", "ccmap 1 0 1 4 2 0", "none"), ("co", "co(T(1), d=T(2), b=T(3))", "ccmap 1 0 1 4 3,1 00", "none"),
+            ("pf", "pf(T(1), T(2))", "ccmap 1 0 2 3 - 00", "nocall"), ("cf", "cf(T(1), T(2), T(3), T(4))", "ccmap 1 0 4 4 - 0000", "nocall")]
+    ctx.count("ccmap/gap-or-positional", len(gaps), distinct_sigs=[x[1] for x in gaps])
+    gm = model.batch([x[2] for x in gaps])
+    name = "c20tie_gap"
+    L = ["# cython: language_level=3", "from c20rt import O, T, F, U, D, I, ev, LOG", ""] + CC.PRELUDE_CY.split("\n") + ["def t0(x, y, z):"]
+    glines = []
+    for x in gaps:
+        L.append("    r = " + x[1]); glines.append(len(L))
+    with open(os.path.join(ctx.workdir, name + ".pyx"), "w") as f:
+        f.write("\n".join(L) + "\n")
+    r = cybuild.run_script(CC.FRONT, ctx.workdir, {"modules": [name], "dir": ctx.workdir}, timeout=600, name="c20_front.py")
+    rg = (r["json"] or {}).get(name, {})
+    for x, ln, mr in zip(gaps, glines, gm):
+        recs = rg.get(str(ln))
+        if x[3] == "nocall":
+            # purely positional calls are SimpleCallNodes from the start: the mapping is not involved
+            if recs or not mr.startswith("OK  | "):
+                ctx.corr_break("ccmap-positional", {"call": x[1]}, recs, mr)
+        elif not recs or recs[0]["res"] != x[3] or mr != "GAP":
+            ctx.corr_break("ccmap-gap", {"call": x[1]}, recs, mr)
+
+
+# --------------------------------------------------------------------------------------
+# optimised builtin calls, builtin-type methods on typed receivers, inline C arguments: the same source
+# compiled and executed by CPython, logs compared (two-way; the model has no builtin semantics)
+BI_PRELUDE_COMMON = """
+def TY(k):
+    LOG.append('L%d' % k); return (int, str, float, list)[k % 4]
+def Ls(k):
+    LOG.append('L%d' % k); return [k, k + 1]
+def St(k):
+    LOG.append('L%d' % k); return 'ab%dab' % k
+class NUL(object):
+    def write(self, s): LOG.append('w' + s.strip()[:12])
+nul = NUL()
+"""
+BI_PRELUDE_CY = BI_PRELUDE_COMMON + """
+cdef dict as_dict(o): return <dict>o
+cdef list as_list(o): return <list>o
+cdef str as_str(o): return <str>o
+cdef long h(long k) noexcept:
+    LOG.append('h%d' % k); return k
+cdef long he(long k) except? -1:
+    LOG.append('h%d' % k); return k
+cdef long ci(long a, long b, long c):
+    return a * 100 + b * 10 + c
+"""
+BI_PRELUDE_PY = BI_PRELUDE_COMMON + """
+def as_dict(o): return o
+as_list = as_str = as_dict
+def h(k):
+    LOG.append('h%d' % k); return k
+he = h
+def ci(a, b, c):
+    return a * 100 + b * 10 + c
+"""
+# {A} {B} {C} {D}: argument slots, filled with logging sub-expressions of the right value type
+#   o: any object   i: int   s: str   t: type   l: list   d: dict
+BUILTINS = [
+    ("getattr({o}, 'a', {o})", "getattr3"), ("getattr({o}, {s}, {o})", "getattr3"), ("getattr({o}, {s})", "getattr2"),
+    ("setattr({o}, {s}, {o})", "setattr"), ("hasattr({o}, {s})", "hasattr"),
+    ("isinstance({o}, ({t}, {t}))", "isinstance-tuple"), ("isinstance({o}, {t})", "isinstance"),
+    ("isinstance({o}, (int, {t}, str))", "isinstance-tuple"), ("issubclass({t}, ({t}, {t}))", "issubclass"),
+    ("as_dict({d}).get({o}, {o})", "dict.get"), ("as_dict({d}).get({o})", "dict.get"),
+    ("as_dict({d}).setdefault({o}, {o})", "dict.setdefault"), ("as_dict({d}).pop({o}, {o})", "dict.pop"),
+    ("as_list({l}).insert({i}, {o})", "list.insert"), ("as_list({l}).append({o})", "list.append"),
+    ("as_list({l}).extend([{o}, {o}, {o}])", "list.extend"), ("as_list({l}).pop({i} - {i})", "list.pop"),
+    ("as_str({s}).startswith({s}, {i}, {i})", "str.startswith"), ("as_str({s}).endswith({s}, {i})", "str.endswith"),
+    ("as_str({s}).find({s}, {i}, {i})", "str.find"), ("as_str({s}).replace({s}, {s}, {i})", "str.replace"),
+    ("as_str({s}).split({s}, {i})", "str.split"), ("as_str({s}).join([{s}, {s}])", "str.join"),
+    ("as_str({s}).encode({s}[0:0] + 'utf8')", "str.encode"),
+    ("print({o}, {o}, file=nul)", "print"), ("print({o}, {o}, sep={s}, file=nul)", "print"),
+    ("abs({i})", "abs"), ("divmod({i}, {i})", "divmod"), ("pow({i}, {i}, {i})", "pow"), ("pow({i}, {i})", "pow"),
+    ("set([{o}, {o}, {o}])", "set"), ("sum([{i}, {i}], {i})", "sum"), ("dict(ka={o}, kb={o})", "dict"),
+    ("slice({o}, {o}, {o})", "slice"), ("tuple([{o}, {o}])", "tuple"), ("list(({o}, {o}))", "list"),
+    ("sorted([{i}, {i}], reverse={o})", "sorted"), ("int({s}[2:3], {i} + 8)", "int"), ("str({o})", "str"),
+    ("len([{o}, {o}])", "len"), ("next(iter([{o}]), {o})", "next"), ("min({i}, {i}, {i})", "min"),
+    ("max({i}, {i})", "max"), ("bool({o})", "bool"), ("type({o})", "type"), ("callable({o})", "callable"),
+    ("[{o}, {o}][{i} - {i}]", "list-index"), ("({o}, {o})[{i} - {i}:{i}]", "tuple-slice"),
+    ("{{{o}: {o}, {o}: {o}}}", "dict-display"), ("f'{{{o}}}{{{o}!r}}'", "fstring"),
+    ("ci({i}, {i}, {i})", "cfunc-int"), ("ci(c={i}, b={i}, a={i})", "cfunc-int-kw"), ("ci(he({i}), {i}, he({i}))", "cfunc-int"),
+    ("ci(b=he({i}), a={i}, c=he({i}))", "cfunc-int-kw"),
+]
+# arguments evaluated inline in the C call expression (a noexcept C function call is no temp): after the
+# temps, in the C compiler's order.  Cython warns (level 0): "Argument evaluation order in C function call
+# is undefined and may not be as expected"
+BUILTINS_INLINE = [
+    ("ci(h({i}), {i}, h({i}))", "inline"), ("ci({i}, h({i}), {i})", "inline"), ("ci({i} + 1, h({i}), {i})", "inline"),
+]
+
+
+def fill(g, tmpl, rich):
+    """rich: and/or/conditional sub-expressions in the slots, else plain leaves"""
+    r = g.rng
+    def leafsrc(kind):
+        g.k += 1
+        return {"o": "T(%d)", "i": "I(%d)", "s": "St(%d)", "t": "TY(%d)", "l": "Ls(%d)", "d": "D(%d)"}[kind] % g.k
+    def slot(kind):
+        if not rich or r.random() < 0.4:
+            return leafsrc(kind)
+        c = r.random()
+        a, b = leafsrc(kind), leafsrc(kind)
+        if c < 0.35:
+            return "(%s or %s)" % (a, b)
+        if c < 0.7:
+            return "(%s and %s)" % (a, b)
+        g.k += 1
+        return "(%s if %s(%d) else %s)" % (a, r.choice("TF"), g.k, b)
+    out, i = "", 0
+    while i < len(tmpl):
+        if tmpl[i] == "{" and i + 2 < len(tmpl) and tmpl[i + 2] == "}" and tmpl[i + 1] in "oistld":
+            out += slot(tmpl[i + 1]); i += 3
+        elif tmpl[i:i + 2] in ("{{", "}}"):
+            out += tmpl[i]; i += 2
+        else:
+            out += tmpl[i]; i += 1
+    return out
+
+
+def check_builtins(ctx):
+    quick = ctx.tier == "quick"
+    g = Gen(ctx.rng)
+    cases = []
+    for tmpl, name in BUILTINS + BUILTINS_INLINE:
+        g.k = 0
+        cases.append((fill(g, tmpl, False), name))
+        for _ in range(1 if quick else 6):
+            g.k = 0
+            cases.append((fill(g, tmpl, True), name))
+    seen, uniq = set(), []
+    for c in cases:
+        if c[0] not in seen:
+            seen.add(c[0]); uniq.append(c)
+    cases = uniq
+    hdr = "# cython: language_level=3\nfrom c20rt import O, T, F, U, D, I, ev, LOG\n"
+    body = "".join("def c%d(x, y, z):\n    return %s\n" % (i, c[0]) for i, c in enumerate(cases))
+    os.makedirs(ctx.workdir, exist_ok=True)
+    with open(os.path.join(ctx.workdir, "c20rt.py"), "w") as f:
+        f.write(RUNTIME)
+    with open(os.path.join(ctx.workdir, "c20bi_py.py"), "w") as f:
+        f.write(hdr + BI_PRELUDE_PY + body)
+    try:
+        cybuild.build("c20bi", hdr + BI_PRELUDE_CY + body, ctx.workdir, cflags=["-O0"])
+    except cybuild.BuildError as e:
+        ctx.corr_break("builtin-module-build", {"module": "c20bi"}, str(e)[-1500:], "module builds")
+        return
+    todo = [[m, "c%d" % i] for i in range(len(cases)) for m in ("c20bi_py", "c20bi")]
+    res = run_all(ctx.workdir, todo)
+    for i, (src, name) in enumerate(cases):
+        o = res.get(("c20bi_py", "c%d" % i), [[], "EXC missing"])
+        a = res.get(("c20bi", "c%d" % i), [[], "EXC missing"])
+        if o[1].startswith("EXC"):
+            continue
+        inp = {"expr": src}
+        ctx.case("builtin/" + name, inp, sig=src)
+        same_val = (a[1] == o[1]) or (a[1].startswith("?<") and o[1].startswith("?<"))
+        if dedup_bool(a[0]) != dedup_bool(o[0]) or not same_val:
+            klass = "c_call_inline_c_argument_order_unspecified" if name == "inline" else "optimised_builtin_call_order_differs"
+            ctx.fail(klass, inp, a, o)
+        else:
+            lv = [e for e in a[0] if e.startswith("L") and e[1:].isdigit()]
+            if len(lv) != len(set(lv)):
+                ctx.fail("leaf_evaluated_twice", inp, a, o)
 
 
 def gen_random(rng, count, depth):
@@ -931,7 +1321,26 @@ def run(ctx):
     if quick:
         # the compiler under test runs from .py sources (~0.25 s per function): keep two thirds of the enumeration
         small = [s for s in small if ctx.rng.random() < 0.66]
-    check_stmts(ctx, small, "c20e")
+    # calls the compiler maps to C-level argument lists: every shape of positional / keyword arguments
+    gcc_ = Gen(ctx.rng); gcc_.k = 500
+    small = small + CC.systematic_calls(gcc_, quick)
+    # the front-end tie and the builtin module run while the big modules build
+    import threading
+    side_err = []
+    def side():
+        try:
+            check_ccmap(ctx)
+            check_builtins(ctx)
+        except BaseException as e:     # re-raised in the main thread
+            side_err.append(e)
+    th = threading.Thread(target=side)
+    th.start()
+    try:
+        check_stmts(ctx, small, "c20e")
+    finally:
+        th.join()
+    if side_err:
+        raise side_err[0]
     if not quick:
         ctx.extra.setdefault("exhaustive_domains", []).append(
             "call argument-kind patterns (positional/keyword/*/**) of length <= 3, plain and method calls: all %d"
